@@ -45,7 +45,8 @@ MANIFEST = {
 
 RULE = (
     "pre-order token sequences of the grammar (leaf kinds, 'F(' 'H(' ')' and end marker) with node and depth "
-    "bounds; distinct = distinct (family, rotation, token sequence); non-trivial = the tree contains a Fork, a "
+    "bounds; distinct = distinct concrete tree (leaf kinds, names, nesting; the families overlap and are "
+    "de-duplicated by hashing the tree); non-trivial = the tree contains a Fork, a "
     "nested Hierarchical or at least two Computes (something must be left out of or inlined into some path)"
 )
 ASSUMPTIONS = [
